@@ -38,7 +38,7 @@ var baseTime = time.Unix(1_000_000_000, 0)
 type FileSt struct {
 	Name string `json:"name"`
 	Size int    `json:"size"`
-	MT   int    `json:"mtime_s"` // seconds after baseTime
+	MT   int    `json:"mtime_ns"` // nanoseconds after baseTime (touch: +400 ms, touch1ns: +1 ns)
 }
 
 type State struct {
@@ -228,7 +228,7 @@ func (h *harness) hashes(s State) (h0, h1 string, fail *engine.Failure, err erro
 		if err = os.WriteFile(p, []byte(strings.Repeat("x", f.Size)), 0o644); err != nil {
 			return
 		}
-		t := baseTime.Add(time.Duration(f.MT) * time.Second)
+		t := baseTime.Add(time.Duration(f.MT))
 		if err = os.Chtimes(p, t, t); err != nil {
 			return
 		}
@@ -255,11 +255,7 @@ func (h *harness) hashes(s State) (h0, h1 string, fail *engine.Failure, err erro
 			err = e
 			return
 		}
-		back.Files = append(back.Files, FileSt{d.Name(), int(fi.Size()), int(fi.ModTime().Sub(baseTime) / time.Second)})
-		if !fi.ModTime().Equal(baseTime.Add(time.Duration(back.Files[len(back.Files)-1].MT) * time.Second)) {
-			err = fmt.Errorf("mtime of %s not at a whole second: %v", d.Name(), fi.ModTime())
-			return
-		}
+		back.Files = append(back.Files, FileSt{d.Name(), int(fi.Size()), int(fi.ModTime().Sub(baseTime))})
 	}
 	if back.key() != s.key() {
 		err = fmt.Errorf("materialised directory %q differs from state %q", back.key(), s.key())
@@ -309,7 +305,7 @@ func judge(a, b State, ha, hb [2]string, via string) *engine.Failure {
 				key = "hash-misses:file-appears-or-disappears"
 			case "grow":
 				key = "hash-misses:size"
-			case "touch":
+			case "touch", "touch1ns":
 				key = "hash-misses:mtime"
 			case "rename":
 				key = "hash-misses:rename"
@@ -365,7 +361,9 @@ func successors(s State) (out []succ) {
 		}
 		f := s.Files[i]
 		out = append(out, succ{"grow " + n, s.with(i, FileSt{n, f.Size + 1, f.MT})})
-		out = append(out, succ{"touch " + n, s.with(i, FileSt{n, f.Size, f.MT + 1})})
+		// the modification time moves within the same second (twice), across a second boundary, and by one nanosecond
+		out = append(out, succ{"touch " + n, s.with(i, FileSt{n, f.Size, f.MT + 400_000_000})})
+		out = append(out, succ{"touch1ns " + n, s.with(i, FileSt{n, f.Size, f.MT + 1})})
 		for _, to := range fileNames {
 			if s.find(to) < 0 {
 				out = append(out, succ{"rename " + n + " -> " + to, s.with(i, FileSt{to, f.Size, f.MT})})
@@ -410,11 +408,11 @@ func main() {
 	if c.Thorough() {
 		depth = 6
 	}
-	c.Rule = fmt.Sprintf("BFS from the empty package directory, every operation sequence of length <= %d over create(size 1|2) / grow(+1 byte) / touch(+1 s) / rename to every free name / delete on files %v and mkdir/rmdir of %q, deduplicated on the abstract state (all entries with name, size, mtime); every successor of every transition is materialised and hashed (self=false and self=true); non-trivial = transition whose source state already holds a compilable non-underscore file, or that changes one",
+	c.Rule = fmt.Sprintf("BFS from the empty package directory, every operation sequence of length <= %d over create(size 1|2) / grow(+1 byte) / touch(+400 ms: within a second and across a second boundary) / touch1ns(+1 ns) / rename to every free name / delete on files %v and mkdir/rmdir of %q, deduplicated on the abstract state (all entries with name, size, mtime); every successor of every transition is materialised and hashed (self=false and self=true); non-trivial = transition whose source state already holds a compilable non-underscore file, or that changes one",
 		depth, fileNames, dirName)
 	c.Assumptions = []string{
 		"compilable extensions inside the alphabet: .go .xgo .gox (incl. the _yap.gox class suffix); the code also accepts .gop and the class extensions of the module (gsh, spx, gmx, _test.gox ...), which are outside the alphabet",
-		"regular files and directories only (no symlinks, devices); file content is irrelevant beyond its size; mtimes are whole seconds set with os.Chtimes",
+		"regular files and directories only (no symlinks, devices); file content is irrelevant beyond its size; mtimes are set with os.Chtimes to baseTime + k*400 ms (+ n ns); the file system must keep nanosecond timestamps (self-checked on every materialised state)",
 		"module loaded like tool.LoadMod does: xgomod.Load + ImportClasses; package example.com/m/pkg of a module with go.mod only",
 		"two different relevant projections with equal hashes are a violation (sha256 collisions are not expected within the bound)",
 	}
